@@ -2,19 +2,21 @@
 # Runs every quick check on the unchanged tree under several seeds from fresh processes;
 # prints one line per (check, seed) that is not silent (rc != 0 or a VIOLATION/KNOWN line).
 cd /verif && ./check --setup >/dev/null || { echo "setup failed"; exit 2; }
+# evidence and replays of these runs go to a scratch root, not to /verif/evidence
+SR=$(mktemp -d /tmp/silence_root.XXXX); cp /verif/known_findings.json $SR/
 seeds=${@:-1 2 3 4 5}
 bad=0
 for s in $seeds; do
   for i in $(seq -w 1 20); do
-    out=$(VERIF_SEED=$s VERIF_ROOT=/verif ./target/release/c$i --tier quick 2>/dev/null); rc=$?
+    out=$(VERIF_SEED=$s VERIF_ROOT=$SR ./target/release/c$i --tier quick 2>/dev/null); rc=$?
     if [ $rc -ne 0 ] || echo "$out" | grep -qE 'VIOLATION|KNOWN-FINDING|INCONCLUSIVE'; then bad=1; echo "NOT SILENT: C$i seed=$s rc=$rc"; echo "$out" | grep -E 'VIOLATION|KNOWN|INCONCL|failure' | head -5; fi
     # the uninstrumented repeat of the six hooked properties (built by ./check --setup)
     case $i in 03|10|11|12|13|14)
-      out=$(VERIF_SEED=$s VERIF_ROOT=/verif VERIF_EVIDENCE_SUBDIR=evidence_plain ./target/plain/fast/c$i --tier quick 2>/dev/null); rc=$?
+      out=$(VERIF_SEED=$s VERIF_ROOT=$SR VERIF_EVIDENCE_SUBDIR=evidence_plain ./target/plain/fast/c$i --tier quick 2>/dev/null); rc=$?
       if [ $rc -ne 0 ] || echo "$out" | grep -qE 'VIOLATION|KNOWN-FINDING|INCONCLUSIVE'; then bad=1; echo "NOT SILENT (plain): C$i seed=$s rc=$rc"; echo "$out" | grep -E 'VIOLATION|KNOWN|INCONCL|failure' | head -5; fi;;
     esac
   done
   echo "seed $s done"
 done
 [ $bad -eq 0 ] && echo "ALL SILENT"
-rm -rf /verif/replays/*
+rm -rf "$SR"
